@@ -175,7 +175,8 @@ def oracle(case, r):
                                  'rules_whose_condition_is_true': it['indep_matching']}))
             exp = case.get('expect')
             if exp and (f['ok'].get('rule') != exp.get('rule', f['ok'].get('rule')) or
-                        not set(exp.get('tags', [])) <= set(f['ok'].get('tags', []))):
+                        not set(exp.get('tags', [])) <= set(f['ok'].get('tags', [])) or
+                        set(exp.get('not_tags', [])) & set(f['ok'].get('tags', []))):
                 bad.append(('C08/failing-rule-changes-what-a-later-rule-does', {'txn': it['txn'], 'mode': it['mode'], 'expected': exp, 'got': f['ok']}))
             fr = it.get('fresh_reduced')
             if fr is not None and 'ok' in fr and fr['ok'] != f['ok']:
@@ -364,6 +365,19 @@ def main(tier):
                           'expect': {'rule': 'Good', 'tags': ['ok']},
                           'txns': [{'description': 'NETFLIX.COM #1234', 'amount': -15.99, 'date': '2025-02-28', 'source': 'Amex', 'field': None},
                                    {'description': 'NETFLIX.COM #1234', 'amount': 15.99, 'date': None, 'source': 'Amex', 'field': None}]})
+    # date literals of the right SHAPE that name no calendar day: the comparison cannot be evaluated, whatever the operator
+    for lit in ['2025-06-31', '2025-02-30', '2025-13-01', '2025-00-10', '2025-02-29', '0000-01-01', '2025-04-31', '2025-12-32']:
+        for op in ['<=', '<', '>=', '>', '==', '!=']:
+            for side in (0, 1):
+                cond = f'date {op} "{lit}"' if side == 0 else f'"{lit}" {op} date'
+                cases.append({'kind': 'engine', 'modes': ['first_match', 'most_specific'], 'variables': [], 'transforms': [],
+                              'data_sources': {'rows': [{'item': 'Book', 'amount': 12.5}], 'empty': []},
+                              'rules': [{'name': 'Bad', 'match': f'contains("NETFLIX") and {cond}', 'category': 'X', 'tags': ['bad']},
+                                        {'name': 'BadTag', 'match': cond, 'tags': ['badtag']},
+                                        {'name': 'Good', 'match': 'contains("NETFLIX")', 'category': 'Subs', 'subcategory': 'Stream', 'tags': ['ok']}],
+                              'expect': {'rule': 'Good', 'tags': ['ok'], 'not_tags': ['bad', 'badtag']},
+                              'txns': [{'description': 'NETFLIX.COM #1234', 'amount': -15.99, 'date': '2025-03-15', 'source': 'Amex', 'field': None},
+                                       {'description': 'NETFLIX.COM #1234', 'amount': -15.99, 'date': '2025-12-31', 'source': 'Amex', 'field': None}]})
     for nm, reader in [('amount', 'amount > 100'), ('big', 'big'), ('seen', 'seen == 1 or contains("COFFEE")')]:
         for tail in ['contains(5)', 'amount > "x"', 'field.nope == 1']:
             for with_var in (True, False):
